@@ -144,14 +144,19 @@ CHECKS["C13"] = dict(
          "graph, seeded simulations of a larger instance and the counterexamples of the named deviations (pre-fix two-cursor "
          "algorithm, four single-guard weakenings) are replayed on the real ExecutionClient behind the real EventSyncer against "
          "a gated in-process go-ethereum rpc.Server over WebSocket; a free-running seeded fault-injection run and a PackLogs "
-         "run add timing races and large batches. Monitors read only the BlockLogs handed to the event handler.",
+         "run add timing races and large batches. Monitors read only the BlockLogs handed to the event handler. In the other "
+         "direction free-running executions of the real StreamLogs under a seeded random environment (head bursts, random logs, "
+         "batch and follow sizes, error answers, connection cuts, subscription errors, shutdown/restart from last+1) are recorded "
+         "at the fake node's RPC boundary and at the consumer and validated by TLC against LogStreamTrace.tla twice: the C13 "
+         "invariants on the observed stream (a violated one is a verdict), and step-wise explanation by LogStream's actions with "
+         "fetch ranges, delivered entries and resume cursors bound (a rejection is a divergence).",
     design_ref="DESIGN.md section 5 C13",
     note="Execution node honest and append-only (no reorgs; canonical getLogs order); exhaustive only for the stated constants; "
          "connection cut and subscription error are one event for the client; executions in which go-ethereum's rpc client "
-         "hangs after a cut are given up without verdict; trace validation (impl->spec via TLC) not built, conformance is "
-         "checked step-wise during replay instead.",
+         "hangs after a cut are given up without verdict (about 1.5 % of the free-running executions).",
     technique="TLA+ spec + TLC exhaustive check; state-graph cover, simulations and attack traces replayed on the real client "
-              "with a gated fake execution node; free-running fault injection",
+              "with a gated fake execution node; free-running fault injection; TLC trace validation of recorded free-running "
+              "executions (observation and conformance readings)",
 )
 
 CHECKS["C08"] = dict(
@@ -279,8 +284,10 @@ CHECKS["C01"] = dict(
          "member, equivocating leader, lying round-changes, certificates, one arbitrary reception; all leader rotations in "
          "thorough). Fine-grain TLC behaviours are replayed on real controllers (real BLS, signature verification on) with "
          "the projected real state compared to the spec state after every step and the agreement monitor evaluated on the "
-         "real instances; attack traces of weakened specs (one removed guard each) are replayed as regression.",
-    design_ref="DESIGN.md section 5 C01",
+         "real instances; attack traces of weakened specs (one removed guard each; guided synthesis) are replayed as "
+         "regression. Committee 7 (f=2, two Byzantine operators with real keys) is covered by macro-grain simulations replayed "
+         "on seven real controllers, not exhaustively.",
+    design_ref="DESIGN.md section 5 C01 and 10.3",
     note=_QBFT_NOTE,
     technique="TLA+ spec + TLC exhaustive check per adversary class; TLC simulation behaviours and attack traces replayed on "
               "real controllers with state comparison",
@@ -295,7 +302,10 @@ CHECKS["C02"] = dict(
          "every certificate returned by Controller.ProcessMsg is re-verified independently by the harness "
          "(FastAggregateVerify over exactly the listed members' keys, distinctness, quorum, H(FullData)=Root; leader and "
          "value check for local decisions); forged certificates are built with the Byzantine operator's real key and must "
-         "leave the real controller unchanged; one attack trace per forged kind / removed guard is replayed.",
+         "leave the real controller unchanged; one attack trace per forged kind / removed guard is replayed. The accepted "
+         "proposal carries its root and its stored full data separately (a relayed proposal with substituted data is a "
+         "stuttering step the real code must refuse) and LocalDecisionMatchesCert requires the value a local decision reports "
+         "to be the value its certificate is over. Committee 7 (f=2) by replayed simulations.",
     design_ref="DESIGN.md section 5 C02",
     note=_QBFT_NOTE,
     technique="TLA+ spec + TLC exhaustive check (certificate classes); simulation behaviours and attack traces replayed on real "
